@@ -177,9 +177,26 @@ def r2(ctx):
     po = P.func("formulaic.transforms.poly.poly")
     fnp = po.node
 
+    # the recurrence helpers may be nested in poly or sit next to it as private module-level functions that are handed the
+    # working arrays: the search covers poly and the private functions of its module that it (transitively) calls
+    scope_nodes = [fnp]
+    frontier = [fnp]
+    while frontier:
+        cur = frontier.pop()
+        for c_ in ast.walk(cur):
+            if isinstance(c_, ast.Call) and isinstance(c_.func, ast.Name) and c_.func.id.startswith("_"):
+                g_ = P.functions.get(f"{po.module.name}.{c_.func.id}")
+                if g_ is not None and g_.node not in scope_nodes:
+                    scope_nodes.append(g_.node)
+                    frontier.append(g_.node)
+
+    def walk_scope():
+        for r_ in scope_nodes:
+            yield from ast.walk(r_)
+
     def has(*pats, binds=None):
         for pat in pats:
-            for n in ast.walk(fnp):
+            for n in walk_scope():
                 b = sym.pm(pat, n, binds)
                 if b is not None:
                     return b
@@ -188,26 +205,41 @@ def r2(ctx):
     ba = has("VAR_a[VAR_k] = numpy.sum(VAR_x * VAR_P[:, VAR_k] ** 2) / numpy.sum(VAR_P[:, VAR_k] ** 2)")
     bn = has("VAR_n[VAR_k] = numpy.sum(VAR_P[:, VAR_k] ** 2)")
     getters = {}
-    for n in ast.walk(fnp):
-        if isinstance(n, ast.FunctionDef) and n is not fnp and len(n.args.args) == 1:
-            k = n.args.args[0].arg
-            for r in returns_of(n):
-                if ba and sym.pm(f"{ba['VAR_a']}[{k}]", r.value) is not None:
-                    getters["alpha"] = n.name
-                if bn and sym.pm(f"{bn['VAR_n']}[{k}]", r.value) is not None:
-                    getters["norm"] = n.name
-    G = getters.get("norm", "get_norm")
-    for n in ast.walk(fnp):
-        if isinstance(n, ast.FunctionDef) and n is not fnp and len(n.args.args) == 1:
-            k = n.args.args[0].arg
-            if any(sym.pm(f"{G}({k}) / {G}({k} - 1)", r.value) is not None for r in returns_of(n)):
-                getters["beta"] = n.name
-    GA, GB = getters.get("alpha", "get_alpha"), getters.get("beta", "get_beta")
+    arity = {}
+    idx_pos = {}
+    for n in walk_scope():
+        if isinstance(n, ast.FunctionDef) and n is not fnp and len(n.args.args) >= 1:
+            arity[n.name] = len(n.args.args)
+            for pos_, a_ in enumerate(n.args.args):   # the index parameter: the one the returned entry is subscripted with
+                k = a_.arg
+                for r in returns_of(n):
+                    if ba and sym.pm(f"{ba['VAR_a']}[{k}]", r.value) is not None:
+                        getters["alpha"] = n.name
+                        idx_pos[n.name] = pos_
+                    if bn and sym.pm(f"{bn['VAR_n']}[{k}]", r.value) is not None:
+                        getters["norm"] = n.name
+                        idx_pos[n.name] = pos_
+    G0 = getters.get("norm", "get_norm")
+
+    def call_of(name):
+        """`name(<index>` … with one metavariable per further parameter (a helper moved out of poly is handed the arrays)."""
+        n_, at_ = arity.get(name, 1), idx_pos.get(name, 0)
+        return lambda x: f"{name}(" + ", ".join(x if i == at_ else f"ANY_{name.strip('_')}{i}" for i in range(n_)) + ")"
+    Gc = call_of(G0)
+    for n in walk_scope():
+        if isinstance(n, ast.FunctionDef) and n is not fnp and len(n.args.args) >= 1:
+            for pos_, a_ in enumerate(n.args.args):
+                k = a_.arg
+                if any(sym.pm(f"{Gc(k)} / {Gc(k + ' - 1')}", r.value) is not None for r in returns_of(n)):
+                    getters["beta"] = n.name
+                    idx_pos[n.name] = pos_
+    GAc, GBc = call_of(getters.get("alpha", "get_alpha")), call_of(getters.get("beta", "get_beta"))
+    G = G0
     Pm = (ba or {}).get("VAR_P", "P")
     deg = param_names(fnp)[1]
     # the beta coefficient may be written at its only use instead of behind a getter: beta_{i-1} = norm_{i-1} / norm_{i-2}
-    inline_beta = [f"{Pm}[:, VAR_i] -= {G}(VAR_i - 1) / {G}(VAR_i - 2) * {Pm}[:, VAR_i - 2]", f"{Pm}[:, VAR_i] -= ({G}(VAR_i - 1) / {G}(VAR_i - 2)) * {Pm}[:, VAR_i - 2]",
-                   f"{Pm}[:, VAR_i] = {Pm}[:, VAR_i] - {G}(VAR_i - 1) / {G}(VAR_i - 2) * {Pm}[:, VAR_i - 2]"]
+    inline_beta = [f"{Pm}[:, VAR_i] -= {Gc('VAR_i - 1')} / {Gc('VAR_i - 2')} * {Pm}[:, VAR_i - 2]", f"{Pm}[:, VAR_i] -= ({Gc('VAR_i - 1')} / {Gc('VAR_i - 2')}) * {Pm}[:, VAR_i - 2]",
+                   f"{Pm}[:, VAR_i] = {Pm}[:, VAR_i] - {Gc('VAR_i - 1')} / {Gc('VAR_i - 2')} * {Pm}[:, VAR_i - 2]"]
     poly_checks = [
         ("rows with nulls yield nulls", has("VAR_o.fill(numpy.nan)", "VAR_o = numpy.full(ANY_s, numpy.nan)", "VAR_o = numpy.full(ANY_s, fill_value=numpy.nan)"),
          "the output matrix must start filled with NaN"),
@@ -218,18 +250,18 @@ def r2(ctx):
         ("the constant column is dropped", has(f"{Pm}[:, 0] = 1", f"{Pm}[:, 0] = 1.0"), f"expected {Pm}[:, 0] = 1 (and only columns 1: are returned)"),
         ("recorded recurrence coefficients are reused", has("VAR_a = _state.get('alpha')", "VAR_a = _state['alpha'] if 'alpha' in _state else None"),
          "alpha must be read from _state"),
-        ("three-term recurrence, first order", has(f"{Pm}[:, VAR_i] = (VAR_x - {GA}(VAR_i - 1)) * {Pm}[:, VAR_i - 1]"),
-         f"expected `{Pm}[:, i] = (x - {GA}(i - 1)) * {Pm}[:, i - 1]`"),
-        ("three-term recurrence, second order", has(f"{Pm}[:, VAR_i] -= {GB}(VAR_i - 1) * {Pm}[:, VAR_i - 2]", f"{Pm}[:, VAR_i] = {Pm}[:, VAR_i] - {GB}(VAR_i - 1) * {Pm}[:, VAR_i - 2]",
+        ("three-term recurrence, first order", has(f"{Pm}[:, VAR_i] = (VAR_x - {GAc('VAR_i - 1')}) * {Pm}[:, VAR_i - 1]"),
+         f"expected `{Pm}[:, i] = (x - {GAc('i - 1')}) * {Pm}[:, i - 1]`"),
+        ("three-term recurrence, second order", has(f"{Pm}[:, VAR_i] -= {GBc('VAR_i - 1')} * {Pm}[:, VAR_i - 2]", f"{Pm}[:, VAR_i] = {Pm}[:, VAR_i] - {GBc('VAR_i - 1')} * {Pm}[:, VAR_i - 2]",
                                                     *inline_beta),
-         f"expected `{Pm}[:, i] -= {GB}(i - 1) * {Pm}[:, i - 2]`"),
+         f"expected `{Pm}[:, i] -= {GBc('i - 1')} * {Pm}[:, i - 2]`"),
         ("alpha_k = <x p_k, p_k> / <p_k, p_k>", ba if ba and "alpha" in getters else None, "expected `alpha[k] = numpy.sum(x * P[:, k] ** 2) / numpy.sum(P[:, k] ** 2)` in the getter that returns alpha[k]"),
         ("norm_k = <p_k, p_k>", bn if bn and "norm" in getters else None, "expected `norms2[k] = numpy.sum(P[:, k] ** 2)` in the getter that returns norms2[k]"),
-        ("beta_k = norm_k / norm_{k-1}", getters.get("beta") or has(*inline_beta), f"expected a getter returning `{G}(k) / {G}(k - 1)` (or that ratio written in the recurrence itself)"),
+        ("beta_k = norm_k / norm_{k-1}", getters.get("beta") or has(*inline_beta), f"expected a getter returning `{Gc('k')} / {Gc('k - 1')}` (or that ratio written in the recurrence itself)"),
         ("every column is divided by the root of its own squared norm",
-         has(f"{Pm} /= numpy.array([numpy.sqrt({G}(VAR_k)) for VAR_k in range(0, {deg} + 1)])", f"{Pm} /= numpy.array([numpy.sqrt({G}(VAR_k)) for VAR_k in range({deg} + 1)])",
-             f"{Pm} = {Pm} / numpy.array([numpy.sqrt({G}(VAR_k)) for VAR_k in range(0, {deg} + 1)])", f"{Pm} /= numpy.sqrt(numpy.array([{G}(VAR_k) for VAR_k in range(0, {deg} + 1)]))"),
-         f"expected `{Pm} /= numpy.array([numpy.sqrt({G}(k)) for k in range(0, {deg} + 1)])`"),
+         has(f"{Pm} /= numpy.array([numpy.sqrt({Gc('VAR_k')}) for VAR_k in range(0, {deg} + 1)])", f"{Pm} /= numpy.array([numpy.sqrt({Gc('VAR_k')}) for VAR_k in range({deg} + 1)])",
+             f"{Pm} = {Pm} / numpy.array([numpy.sqrt({Gc('VAR_k')}) for VAR_k in range(0, {deg} + 1)])", f"{Pm} /= numpy.sqrt(numpy.array([{Gc('VAR_k')} for VAR_k in range(0, {deg} + 1)]))"),
+         f"expected `{Pm} /= numpy.array([numpy.sqrt({Gc('k')}) for k in range(0, {deg} + 1)])`"),
     ]
     for what, ok, msg in poly_checks:
         ctx.look()
